@@ -9,6 +9,10 @@ are about.
     cfg rate <p:a:b[,p:a:b…]> cap=<n> [solo=1]
       at <ns> req <src> <amount> [rates=<…>] [evict=<src>]   -> 200 | 429 <delay_ns> | 500   [solo=<…>]
       retry [extra=<ns>]                                      -> <resp> t=<ns> | noretry
+      at <ns> preq <src> <amount> <n> <goroutines> [rates=<…>] -> 200=<a> 429=<b> 500=<c>
+        (harness: n requests of one source from g goroutines at one frozen instant; model: n sequential
+         requests at that instant — requests refused at an instant change nothing
+         (`C13_flood_free_same_instant`) and all n are identical, so the counts do not depend on the order)
     cfg set <rates>
       at <ns> consume <amount>   -> ok | delay <ns> | err
       at <ns> update <rates>     -> ok
@@ -18,7 +22,7 @@ are about.
       at <ns> get <key>          -> hit <v> | miss
       len                        -> <n>
     cfg conn max=<m>
-      start <id> <src> | finish <id>  -> admitted | 429 | released | dup | unknown
+      start <id> <src> | finish <id> [rewrite=<src2>]  -> admitted | 429 | released | dup | unknown
 -/
 open RL
 
@@ -105,6 +109,15 @@ def doReq (s : RateSt) (t : Nat) (src : String) (amount : Nat) (rates : List Rat
     | _ => s.last
   (.rate { s with l := r.1, solo := solo1, now := now, last := last }, flag ++ respStr r.2 ++ suffix ++ soloStr)
 
+/-- `n` sequential requests at one instant, counting the responses -/
+def preqLoop (l : Limiter) (now : Nat) (src : String) (amount : Nat) (rates : List Rate) :
+    Nat → Option String → Nat × Nat × Nat → Limiter × (Nat × Nat × Nat)
+  | 0, _, c => (l, c)
+  | k + 1, choice, (a, b, c) =>
+    let r := l.serve now src amount rates ((l.sets.get src now).1.victimOr choice)
+    preqLoop r.1 now src amount rates k none
+      (match r.2 with | .ok => (a + 1, b, c) | .tooMany _ => (a, b + 1, c) | .err => (a, b, c + 1))
+
 def ratesOf (f : List String) : Option (List Rate) :=
   match Driver.kv f "rates" with
   | some v => parseRates v
@@ -116,6 +129,25 @@ def stepRate (s : RateSt) (f : List String) : St × String :=
     match t.toNat?, amount.toNat?, ratesOf f with
     | some t, some amount, some rates => doReq s t src amount rates (Driver.kv f "evict") ""
     | _, _, _ => (.rate s, "bad-op")
+  | "at" :: t :: "preq" :: src :: amount :: n :: g :: _ =>
+    match t.toNat?, amount.toNat?, n.toNat?, g.toNat?, ratesOf f, s.solo with
+    | some t, some amount, some n, some (_ + 1), some rates, none =>
+      let now := if t > s.now then t else s.now
+      let choice := Driver.kv f "evict"
+      let m1 := (s.l.sets.get src now).1
+      let flag :=
+        if n = 0 then "" else
+        if s.l.evictsAt now src then
+          match choice with
+          | some c => if m1.isMin c then "" else "illegal-evict "
+          | none => if m1.minCount > 1 then "ambiguous-evict " else ""
+        else match choice with
+          | some _ => "spurious-evict "
+          | none => ""
+      let r := preqLoop s.l now src amount rates n choice (0, 0, 0)
+      (.rate { s with l := r.1, now := now },
+        flag ++ "200=" ++ toString r.2.1 ++ " 429=" ++ toString r.2.2.1 ++ " 500=" ++ toString r.2.2.2)
+    | _, _, _, _, _, _ => (.rate s, "bad-op")
   | "retry" :: _ =>
     match s.last with
     | none => (.rate s, "noretry")
@@ -204,7 +236,8 @@ def connOut : ConnLimit.Out → String
 def stepConn (s : ConnLimit.Sys) (f : List String) : St × String :=
   match f with
   | ["start", id, src] => let r := ConnLimit.step s (.start id src 1); (.conn r.1, connOut r.2)
-  | ["finish", id] => let r := ConnLimit.step s (.finish id .normal); (.conn r.1, connOut r.2)
+  -- `rewrite=`: what the downstream handler does to the request is irrelevant, the release uses the captured token
+  | "finish" :: id :: _ => let r := ConnLimit.step s (.finish id .normal); (.conn r.1, connOut r.2)
   | _ => (.conn s, "bad-op")
 
 def step (st : St) (f : List String) : St × String :=
